@@ -206,9 +206,23 @@ func (h *hist) dropPrefix(nextT *int, ps [][]byte, mreadTs uint64) (stop bool, e
 	}
 	var recs []*compRec
 	var mu sync.Mutex
+	// crash cuts: the directory is copied when each compaction of the drop starts (= after the
+	// memtable flush / after the previous compaction's MANIFEST change set)
+	crash := !h.o.InMemory && h.c.Rng.Intn(4) == 0
+	croot := filepath.Join(filepath.Dir(h.dir), fmt.Sprintf("dpcrash%d", histSeq))
+	var cuts []string
+	if crash {
+		defer os.RemoveAll(croot)
+	}
 	badger.VerifSetController(&badger.VerifController{
 		CompactDef: func(info *badger.VerifCompactInfo) {
 			d := h.db.VerifDump()
+			if crash && len(cuts) < 4 {
+				dst := filepath.Join(croot, fmt.Sprintf("cut%d", len(cuts)))
+				if copyDir(h.dir, dst) == nil {
+					cuts = append(cuts, dst)
+				}
+			}
 			mu.Lock()
 			recs = append(recs, &compRec{info: info, now: time.Now().Unix(), pre: d})
 			mu.Unlock()
@@ -266,6 +280,9 @@ func (h *hist) dropPrefix(nextT *int, ps [][]byte, mreadTs uint64) (stop bool, e
 	}
 	h.xemit(fmt.Sprintf("(DropPrefix %s %s %s %d)", bytesList(ps), idList(l0ids), ListOf(obs), code),
 		fmt.Sprintf("DropPrefix %x -> %v (flushed %v, %d compactions)", ps, derr, l0ids, len(recs)))
+	for _, dir := range cuts {
+		h.checkCrashCopy(dir, pre, vts)
+	}
 	h.c.Oracle(derr == nil, "c29-dropprefix-error", "DropPrefix returned an error in a sequential history", J{"history": h.desc, "err": fmt.Sprint(derr)})
 	if derr != nil {
 		return true, nil
@@ -333,6 +350,36 @@ func (h *hist) dropPrefix(nextT *int, ps [][]byte, mreadTs uint64) (stop bool, e
 	h.discard(t)
 	h.ref = coded
 	return survived, nil
+}
+
+// checkCrashCopy re-opens a directory copied in the middle of a DropPrefix: every key must
+// show its pre-drop value or nothing
+func (h *hist) checkCrashCopy(dir string, pre []refWrite, vts uint64) {
+	db2, err := openSysDB(dir, h.o)
+	if err != nil {
+		h.c.Oracle(false, "c29-crash-reopen-fails", "re-open after a crash inside DropPrefix fails", J{"err": err.Error(), "history": h.desc})
+		return
+	}
+	defer db2.Close()
+	var tx *badger.Txn
+	if h.o.Managed {
+		tx = db2.NewTransactionAt(math.MaxUint64, false)
+	} else {
+		tx = db2.NewTransaction(false)
+	}
+	defer tx.Discard()
+	now := uint64(time.Now().Unix())
+	for _, k := range refKeys(pre) {
+		var got *obsItem
+		if it, err := tx.Get(k); err == nil {
+			oi, _ := readItem(it)
+			got = &oi
+		}
+		ok := got == nil || sameObs(got, refVisibleAt(pre, k, vts, now))
+		h.c.Oracle(ok, "c29-dropprefix-crash-exposes-other-value", "after a crash inside DropPrefix a key shows a value that is neither its pre-drop value nor absent",
+			J{"history": h.desc, "key": k})
+	}
+	h.c.Count("dropprefix crash cut")
 }
 
 func (h *hist) dropAll(nextT *int, mreadTs uint64) error {
